@@ -7,13 +7,22 @@ Per run:
       probabilities, projection_inbreeding, projection_matrix, calling_error_matrix,
       probability_of_no_call_1D_GATK_multisample, probability_enough_individuals_covered — and the whole
       make_low_pass_func_GATK_multisample output for 1-3 populations and sim_threshold in {0, 1e-2, 1}, the
-      simulated arrays the run produced being handed to the model as the values of its oracle;
+      simulated arrays the run produced being handed to the model as the values of its `sim` argument;
+  (1b) the SIMULATION PATH itself (Model/LowPassSim.v): simulate_GATK_multisample_calling and subsample_genotypes_1D are
+      run with recording wrappers around their random sources (harness/impl/c18_impl_sim.py); the recorded draws are
+      replayed through the Coq model and the returned array is compared exactly (one float division); the recorded
+      draws are checked to satisfy the hypotheses of the theorems (pdraw_okb), and the hypothesis of the expectation
+      theorems -- every locus chooses its individuals INDEPENDENTLY and UNIFORMLY -- is made observable: across loci
+      with identical sorted genotype rows the chosen position sets must differ / cover all subsets / be uniform within a
+      Hoeffding bound, and at deep coverage the simulated rows must agree with the projection_matrix rows within a
+      Hoeffding bound (false-alarm probabilities stated in the evidence); a fail-closed obligation on the source text of
+      subsample_genotypes_1D requires the per-locus independent shuffle;
   (2) the property predicates evaluated on the real code: partitions are all and only the sorted genotype
       vectors, probabilities sum to one, matrices row-stochastic and non-negative, no-call in [0,1], corrected
       total <= uncorrected total (analytic and simulated regimes; the simulated regime only redistributes),
       deep coverage == plain projection, F = 1e-9 ~ F = 0.
 """
-import json, math, os
+import ast, json, math, os
 from fractions import Fraction
 from harness import lib
 from harness.lib import q, ql, qll, natl, bl
@@ -26,6 +35,9 @@ DEEP_TOL = 1e-10
 F_EPS = 1e-9
 F_TOL = 1e-4                         # |helper(F=1e-9) - helper(F=0)|: true distance O(1e-9), gammaln cancellation ~1e-7
 THRS = [0.0, 1e-2, 1.0]
+TOL_SIM = Fraction(1, 10 ** 15)      # replayed simulation: the returned array is counts / total, one float division
+P_INDEP = 1e-30                      # false-alarm bound required of the structural independence predicates (per class of loci)
+P_DIST = 1e-12                       # false-alarm bound of one distributional comparison (Hoeffding, union over its entries)
 
 # ---------------------------------------------------------------------------------------------
 # generators
@@ -124,6 +136,20 @@ def gen_lowpass_cases(ctx):
         cases.append({'kind': 'lowpass', 'pops': pops, 'thr': thr, 'nsim': rng.choice([200, 400, 1000]),
                       'seed': rng.randint(0, 2 ** 31 - 1), 'model': model, 'deep': deep,
                       'Fx_none': all(p['F'] == 0 for p in pops) and rng.random() < 0.5})
+    # the simulated regime at deep coverage WITH subsampling (sim_threshold = 0): corrected model vs model.project(nsub)
+    for k in range(ctx.pick(3, 9)):
+        d = 1 if k % 3 != 2 else 2
+        pops = []
+        for a in range(d):
+            nseq = 2 * rng.randint(2, 4 if d == 1 else 3)
+            nsub = 2 * rng.randint(1, nseq // 2 - 1)
+            cov, kind = gen_cov(rng, 'deep')
+            pops.append({'nseq': nseq, 'nsub': nsub, 'cov': cov, 'covkind': kind, 'F': 0.0 if k % 3 != 1 else rng.choice([0.25, 0.5, 0.75])})
+        size = 1
+        for p in pops:
+            size *= p['nseq'] + 1
+        cases.append({'kind': 'lowpass', 'pops': pops, 'thr': 0.0, 'nsim': 5000, 'seed': rng.randint(0, 2 ** 31 - 1),
+                      'model': [rng.randint(1, 64) / 8.0 for _ in range(size)], 'deep': True, 'Fx_none': False, 'simdeep': True})
     return cases
 
 # ---------------------------------------------------------------------------------------------
@@ -212,6 +238,25 @@ def lowpass_predicates(ctx, c, r):
             dv = max([abs(a - b) for a, b, m in zip(r['out'], r['plain'], r['plain_mask']) if not m] + [0.0])
             if dv > DEEP_TOL * scale:
                 bad.append('deep coverage: corrected model differs from Spectrum.project by %.3e' % dv)
+    if c['deep'] and c['thr'] == 0:
+        # every simulated array is within the Hoeffding tolerance of its projection row (union bound over all rows and bins), so
+        # |corrected - plain projection| <= sum_af |model[af]| * t  entrywise, with probability >= 1 - 1e-12
+        nb = 1; P = 1; rows = 1
+        for p in c['pops']:
+            nb *= p['nsub'] + 1; P *= max_parts(p['nseq']); rows *= p['nseq'] + 1
+        n = max(c['nsim'] - P, 1)
+        t = hoeffding_tol(n, nb * rows) + 3.0 / n + 2.0 * P / n + 1e-8
+        mass = sum(abs(x) for x, m in zip(c['model'], r['model_mask']) if not m)
+        dev = maxdiff(r['out'], r['plainF'])
+        ctx.count('deep coverage, sim_threshold=0: corrected vs plain projection (Hoeffding)')
+        ctx.err('corrected (simulated regime, deep) vs plain projection, in units of the Hoeffding tolerance', int(math.floor(math.log2(max(dev / (t * mass), 1e-300)))), 'P(false alarm) < 1e-12 per case')
+        if dev > t * mass:
+            bad.append('deep coverage, sim_threshold=0: corrected model differs from the plain projection (projection_matrix along every axis) by %.4g; '
+                       'with independent uniform subsampling the deviation exceeds %.4g with probability < 1e-12 (nsim=%d)' % (dev, t * mass, c['nsim']))
+        if all(p['F'] == 0 for p in c['pops']):
+            dv = max([abs(a - b) for a, b, m in zip(r['out'], r['plain'], r['plain_mask']) if not m] + [0.0])
+            if dv > t * mass:
+                bad.append('deep coverage, sim_threshold=0: corrected model differs from model.project(nsub) by %.4g (tolerance %.4g, false-alarm probability < 1e-12)' % (dv, t * mass))
     for w in bad:
         ctx.violation('make_low_pass_func_GATK_multisample (pops=%s thr=%r): %s' % (
             [(p['nseq'], p['nsub'], p['F'], p['covkind']) for p in c['pops']], c['thr'], w[:400]), data={'case': c, 'impl': {k: r[k] for k in ('out', 'model_total', 'out_total', 'use')}})
@@ -237,6 +282,341 @@ def lexpr(c, r):
     return '{| lc_d := %d%%nat; lc_pops := %s; lc_thr := %s; lc_model := %s; lc_sims := %s; lc_out := %s; lc_use := %s |}' % (
         len(c['pops']), pops, q(c['thr']), ql(model0), sims, ql(r['out']), bl(r['use']))
 
+# ---------------------------------------------------------------------------------------------
+# the simulation path: generators
+
+def hoeffding_tol(n, nbins, delta=P_DIST):
+    """t with  P(some of nbins bin frequencies of n independent loci deviates from its mean by >= t) <= delta
+    (Hoeffding for each bin, union bound over the bins)"""
+    return math.sqrt(math.log(2.0 * nbins / delta) / (2.0 * max(n, 1)))
+
+def max_parts(nseq):
+    return max(len(all_configs(nseq // 2, af)) for af in range(nseq + 1))
+
+def gen_simrep_cases(ctx):
+    """simulate_GATK_multisample_calling calls replayed through the Coq model (small numbers of loci)"""
+    rng = ctx.rng
+    cases = []
+    n = ctx.pick(22, 120)
+    for i in range(n):
+        d = 1 if i % 3 != 2 else 2
+        shallow = i % 2 == 0
+        withF = (i // 2) % 2 == 0
+        pops = []
+        for k in range(d):
+            nseq = 2 * rng.randint(2, ctx.pick(4, 6) if d == 1 else 3)
+            nsub = 2 * rng.randint(1, nseq // 2 - 1)
+            if (k == 1 and i % 4 == 2) or (d == 1 and i % 11 == 10):
+                nsub = nseq                      # a population that is not subsampled
+            cov, kind = gen_cov(rng, rng.choice(['low', 'low', 'two', 'nozero', 'mid']) if shallow else 'deep')
+            F = (rng.choice([rng.randint(1, 15) / 16.0, 0.5, rng.randint(1, 63) / 64.0]) if withF else 0.0)
+            pops.append({'nseq': nseq, 'nsub': nsub, 'cov': cov, 'covkind': kind, 'F': F})
+        af = [rng.choice([0, 1, p['nseq'] - 1, p['nseq']] + [rng.randint(1, p['nseq'] - 1)] * 6) for p in pops]
+        cases.append({'kind': 'simrep', 'pops': pops, 'af': af, 'nsim': rng.choice([60, 100, 150] if d == 2 else [100, 200, 300]),
+                      'seed': rng.randint(0, 2 ** 31 - 1), 'deep': not shallow})
+    return cases
+
+def ncomb(n, k):
+    return math.comb(n, k)
+
+def loci_needed(C):
+    """number of loci m of one class such that C * (1 - 1/C)**m < P_INDEP (every one of the C subsets is seen)"""
+    return int(math.ceil((math.log(C) - math.log(P_INDEP)) / -math.log(1.0 - 1.0 / C))) + 5
+
+def gen_subs_cases(ctx):
+    """subsample_genotypes_1D on constructed call matrices: a few classes of identical (unsorted) rows, enough loci per class"""
+    rng = ctx.rng
+    cases = []
+    for i in range(ctx.pick(3, 12)):
+        N = rng.randint(3, 5)
+        k = rng.randint(1, N - 1)
+        rows = []
+        for _ in range(rng.randint(2, 3)):
+            calls = rng.randint(k + 1, N) if rng.random() < 0.8 else k
+            row = sorted(rng.choice([0, 1, 2]) for _ in range(calls)) + [99] * (N - calls)
+            rng.shuffle(row)
+            C = ncomb(calls, k)
+            m = loci_needed(C) if C > 1 else 50
+            rows += [list(row) for _ in range(m)]
+        rng.shuffle(rows)
+        cases.append({'kind': 'subs', 'rows': rows, 'N': N, 'nsub': 2 * k, 'seed': rng.randint(0, 2 ** 31 - 1)})
+    return cases
+
+def gen_simdist_cases(ctx):
+    """deep coverage, subsampling, F = 0 and F > 0, 1-2 populations: every simulated row against the projection_matrix row"""
+    rng = ctx.rng
+    cases = []
+    plans = [(1, False), (1, True), (2, False), (2, True)] * ctx.pick(1, 4)
+    for i, (d, withF) in enumerate(plans):
+        pops = []
+        for k in range(d):
+            nseq = 2 * rng.randint(2, 4 if d == 1 else 3)
+            nsub = 2 * rng.randint(1, nseq // 2 - 1)
+            if d == 2 and k == 1 and i % 8 >= 4:
+                nsub = nseq
+            cov, kind = gen_cov(rng, 'deep')
+            F = rng.choice([0.25, 0.5, rng.randint(1, 15) / 16.0]) if (withF and (k == 0 or rng.random() < 0.5)) else 0.0
+            pops.append({'nseq': nseq, 'nsub': nsub, 'cov': cov, 'covkind': kind, 'F': F})
+        import itertools
+        afs = [list(t) for t in itertools.product(*[range(p['nseq'] + 1) for p in pops])]
+        if len(afs) > 14:
+            keep = [a for a in afs if all(0 < x < p['nseq'] for x, p in zip(a, pops))]
+            rng.shuffle(keep)
+            afs = [afs[0], afs[-1]] + keep[:12]
+        cases.append({'kind': 'simdist', 'pops': pops, 'afs': afs, 'nsim': 20000, 'seed': rng.randint(0, 2 ** 30)})
+    return cases
+
+# ---------------------------------------------------------------------------------------------
+# the simulation path: Coq records
+
+def nl(x):
+    return '[' + '; '.join(str(int(t)) for t in x) + ']'
+
+def nll(x):
+    return '[' + '; '.join(nl(t) for t in x) + ']'
+
+def nlll(x):
+    return '[' + '; '.join(nll(t) for t in x) + ']'
+
+def pdraw_expr(d):
+    loci = '[' + '; '.join('[' + '; '.join('[' + '; '.join('(%d, %d)' % (a, b) for a, b in ind) + ']' for ind in loc) + ']' for loc in d['loci']) + ']'
+    return '{| pd_part := %s; pd_loci := %s; pd_sel := %s |}' % (nll(d['part']), loci, nlll(d['sel']))
+
+def sexpr(c, r):
+    pops = '[' + '; '.join('(%d%%nat, %d%%nat, %s)' % (p['nseq'], p['nsub'], q(p['F'])) for p in c['pops']) + ']'
+    return '{| sc_pops := %s; sc_af := %s; sc_nsim := %d%%nat; sc_draws := ([%s])%%nat; sc_out := %s |}' % (
+        pops, natl(c['af']), c['nsim'], '; '.join(pdraw_expr(d) for d in r['draws']), ql(r['out']))
+
+def uexpr(c, r):
+    return '{| uc_N := %d%%nat; uc_nsub := %d%%nat; uc_rows := (%s)%%nat; uc_sels := (%s)%%nat; uc_out := (%s)%%nat |}' % (
+        c['N'], c['nsub'], nll(c['rows']), nll(r['sel']), nll(r['out']))
+
+SIM_HEADER = ('From Coq Require Import ZArith QArith List.\nFrom Dadi Require Import Base.Num Base.NumQ Model.LowPass Model.LowPassCheck '
+              'Model.LowPassSim Model.LowPassSimCheck.\nImport ListNotations.\nOpen Scope Q_scope.')
+
+# ---------------------------------------------------------------------------------------------
+# the simulation path: predicates
+
+def class_predicates(ctx, c, classes, where):
+    """the hypothesis of the expectation theorems made observable: loci with the same sorted genotype row choose their
+    individuals independently and uniformly.  Returns the list of complaints; records the false-alarm bounds."""
+    bad = []
+    for cs in classes:
+        m, calls, k = cs['m'], cs['calls'], cs['k']
+        C = ncomb(calls, k)
+        if not cs['perm_ok']:
+            bad.append('the recorded reordering of a locus with %d called individuals is not a permutation of its positions' % calls)
+        if C < 2 or m < 2:
+            continue
+        # (i) not all loci of the class chose the same individuals: P(false alarm) = C^-(m-1)
+        lp_same = -(m - 1) * math.log10(C)
+        if lp_same < math.log10(P_INDEP):
+            ctx.count('independence: classes tested (not all identical)')
+            ctx.stats['independence: largest log10 false-alarm bound'] = max(ctx.stats.get('independence: largest log10 false-alarm bound', -1e9), round(lp_same, 1))
+            if cs['distinct'] < 2:
+                bad.append('%s: all %d loci with sorted genotype row %r (%d called) selected the SAME %d positions %r (method rng.%s(axis=%r)); '
+                           'with an independent choice per locus the probability of this is %d^-%d < 1e%d' % (
+                               where, m, cs['row'], calls, k, cs['example'][0], cs['method'], cs['axis'], C, m - 1, int(lp_same)))
+                continue
+        # (ii) every subset is chosen by some locus: P(false alarm) <= C (1 - 1/C)^m
+        lp_cover = math.log10(C) + m * math.log10(1.0 - 1.0 / C)
+        if lp_cover < math.log10(P_INDEP):
+            ctx.count('independence: classes tested (all subsets seen)')
+            if cs['distinct'] != C:
+                bad.append('%s: the %d loci with sorted genotype row %r chose only %d of the %d possible sets of %d individuals' % (
+                    where, m, cs['row'], cs['distinct'], C, k))
+                continue
+        # (iii) uniform over subsets: every subset frequency within the Hoeffding bound of 1/C
+        t = hoeffding_tol(m, C)
+        if t < 1.0 / C:
+            ctx.count('uniformity: classes tested (Hoeffding)')
+            lo = (cs['mincount'] if cs['distinct'] == C else 0) / float(m)
+            hi = cs['maxcount'] / float(m)
+            if hi > 1.0 / C + t or lo < 1.0 / C - t:
+                bad.append('%s: the sets of %d individuals chosen by %d loci with sorted genotype row %r are not uniform: frequencies in [%.4f, %.4f], '
+                           'expected %.4f +- %.4f (false-alarm probability < 1e-12)' % (where, k, m, cs['row'], lo, hi, 1.0 / C, t))
+    return bad
+
+def simdist_predicates(ctx, c, r):
+    bad = []
+    nb = 1
+    for p in c['pops']:
+        nb *= p['nsub'] + 1
+    P = 1
+    for p in c['pops']:
+        P *= max_parts(p['nseq'])
+    anyF = any(p['F'] != 0 for p in c['pops'])
+    worst = None
+    for row in r['rows']:
+        n = row['nloci']
+        if n <= 0:
+            bad.append('no locus simulated for allele counts %r' % (row['af'],)); continue
+        if any(x != x or x in (float('inf'), float('-inf')) for x in row['out'] + row['proj'] + row['proj_counts']):
+            bad.append('non-finite values in the simulated array / projection row for allele counts %r' % (row['af'],)); continue
+        t = hoeffding_tol(n, nb) + 3.0 / n          # 3/n: loci whose reads do not reveal a genotype at depth >= 60 (probability < 2^-50 each)
+        d1 = maxdiff(row['out'], row['proj_counts'])
+        d2 = maxdiff(row['out'], row['proj'])
+        t2 = t + 2.0 * P / n + (1e-8 if anyF else 1e-12)
+        ctx.err('simulated row vs projection row (deep coverage), in units of the Hoeffding tolerance', int(math.floor(math.log2(max(d2 / t2, 1e-300)))), 'P(false alarm) < 1e-12 per row')
+        if abs(sum(row['out']) - 1.0) > P_TOL or min(row['out']) < 0:
+            bad.append('simulated array for allele counts %r is not a probability vector' % (row['af'],))
+        if d1 > t or d2 > t2:
+            w = ('deep coverage, allele counts %r: the simulated array differs from the projection row (projection_matrix / projection_inbreeding weighted '
+                 'with the loci per partition) by %.4f; with independent uniform choices the deviation exceeds %.4f with probability < 1e-12 (%d loci, %d bins). '
+                 'simulated %s expected %s' % (row['af'], max(d1, d2), t2, n, nb, ['%.3f' % x for x in row['out'][:12]], ['%.3f' % x for x in row['proj'][:12]]))
+            if worst is None or max(d1, d2) > worst[0]:
+                worst = (max(d1, d2), w)
+    if worst:
+        bad.append(worst[1])
+    return bad
+
+def source_obligations(ctx):
+    """fail-closed obligations on the text of subsample_genotypes_1D: the shuffle is the per-locus independent one"""
+    path = os.path.join(lib.REPO, 'dadi', 'LowPass', 'LowPass.py')
+    problems = []
+    try:
+        tree = ast.parse(open(path).read())
+    except Exception as e:
+        ctx.obligation('source of dadi/LowPass/LowPass.py parses', False, 'translator', str(e)[:200]); return ['LowPass.py does not parse']
+    fn = [n for n in tree.body if isinstance(n, ast.FunctionDef) and n.name == 'subsample_genotypes_1D']
+    rng_def = [n for n in tree.body if isinstance(n, ast.Assign) and any(isinstance(t, ast.Name) and t.id == 'rng' for t in n.targets)]
+    ok_rng = len(rng_def) == 1 and ast.dump(rng_def[0].value) == ast.dump(ast.parse('numpy.random.default_rng()').body[0].value)
+    ctx.obligation('LowPass.rng is ONE module-level numpy.random.default_rng() Generator', ok_rng, 'translator',
+                   '' if ok_rng else 'found %d assignments to rng' % len(rng_def))
+    if not ok_rng:
+        problems.append('LowPass.rng is not a numpy Generator created once at module level')
+    if len(fn) != 1:
+        ctx.obligation('subsample_genotypes_1D is defined once', False, 'translator'); return problems + ['subsample_genotypes_1D not found']
+    fn = fn[0]
+    dump = lambda src: ast.dump(ast.parse(src).body[0].value)
+    # every use of a random source inside the function
+    rnd = []
+    for n in ast.walk(fn):
+        if isinstance(n, ast.Call):
+            f = n.func
+            names = []
+            while isinstance(f, ast.Attribute):
+                names.append(f.attr); f = f.value
+            if isinstance(f, ast.Name):
+                names.append(f.id)
+            if any(x in ('rng', 'random', 'shuffle', 'permutation', 'permuted', 'choice', 'default_rng', 'RandomState') for x in names):
+                rnd.append(n)
+    ok1 = len(rnd) == 1
+    call = rnd[0] if rnd else None
+    ok2 = ok1 and isinstance(call.func, ast.Attribute) and isinstance(call.func.value, ast.Name) and call.func.value.id == 'rng' and call.func.attr == 'permuted'
+    ok3 = ok2 and len(call.args) == 1 and isinstance(call.args[0], ast.Name) and len(call.keywords) == 1 and call.keywords[0].arg == 'axis' \
+        and isinstance(call.keywords[0].value, ast.Constant) and call.keywords[0].value.value == 1
+    detail = ast.unparse(call) if call is not None else 'no random call'
+    ctx.obligation('subsample_genotypes_1D draws randomness exactly once per group of loci', ok1, 'translator', '%d random calls' % len(rnd))
+    ctx.obligation('the shuffle in subsample_genotypes_1D is rng.permuted(<loci>, axis=1): an INDEPENDENT permutation per locus', ok3, 'translator', detail)
+    if not ok3:
+        problems.append('the shuffle in subsample_genotypes_1D is `%s`, not the per-locus independent rng.permuted(<loci>, axis=1)' % detail)
+    # what is shuffled and what is kept of it
+    assigns = {t.id: n.value for n in ast.walk(fn) if isinstance(n, ast.Assign) for t in n.targets if isinstance(t, ast.Name)}
+    arg = call.args[0].id if (call is not None and len(call.args) >= 1 and isinstance(call.args[0], ast.Name)) else None
+    tgt = [t.id for n in ast.walk(fn) if isinstance(n, ast.Assign) and n.value is call for t in n.targets if isinstance(t, ast.Name)]
+    ok4 = arg is not None and arg in assigns and ast.dump(assigns[arg]) == dump('sorted_genotype_calls[n_called == calls][:, :calls]') \
+        and 'sorted_genotype_calls' in assigns and ast.dump(assigns['sorted_genotype_calls']) == dump('numpy.sort(genotype_calls, axis=1)') \
+        and 'n_called' in assigns and ast.dump(assigns['n_called']) == dump('numpy.count_nonzero(genotype_calls != 99, axis=1)')
+    ctx.obligation('what is shuffled: the called genotypes of the sorted rows with exactly `calls` calls', ok4, 'translator')
+    keep = [n for n in ast.walk(fn) if isinstance(n, ast.Subscript) and isinstance(n.value, ast.Name) and tgt and n.value.id == tgt[0]]
+    ok5 = len(tgt) == 1 and len(keep) == 1 and ast.dump(keep[0]) == dump('%s[:, :n_subsampling // 2]' % tgt[0])
+    ctx.obligation('what is kept: the first n_subsampling // 2 columns of the shuffled rows', ok5, 'translator')
+    if not (ok4 and ok5):
+        problems.append('subsample_genotypes_1D no longer shuffles the sorted called genotypes / keeps the first n_subsampling // 2 of them')
+    return problems
+
+def run_simulation_path(ctx, only=None):
+    """correspondence and predicates of simulate_GATK_multisample_calling / subsample_genotypes_1D"""
+    src_problems = source_obligations(ctx)
+    if only is not None:
+        rep, sub, dist = ([only] if only['kind'] == 'simrep' else []), ([only] if only['kind'] == 'subs' else []), ([only] if only['kind'] == 'simdist' else [])
+    else:
+        rep, sub, dist = gen_simrep_cases(ctx), gen_subs_cases(ctx), gen_simdist_cases(ctx)
+    allc = dist + sub + rep          # the property-level comparison (deep simulated row vs projection row) is reported first
+    for i, c in enumerate(allc):
+        c['id'] = 100000 + i
+    res = lib.run_impl('c18_impl_sim.py', allc, timeout=3000)
+    byid = {r['id']: r for r in res}
+    found_input = False
+    sx, ux = [], []
+    for c in allc:
+        r = byid[c['id']]
+        ctx.count('sim kind=' + c['kind'])
+        if 'error' in r:
+            ctx.violation('the simulated calling model raised (%s): %s' % (c['kind'], r['error']), data={'case': c}); found_input = True
+            continue
+        for k, v in r.get('rng_methods', {}).items():
+            ctx.count('rng.%s calls' % k, v)
+        obs = not r['problems']
+        ctx.obligation('random choices of case %d are observable by the recording wrappers' % c['id'], obs, 'correspondence', '; '.join(r['problems'])[:300])
+        if c['kind'] == 'simrep':
+            d = len(c['pops'])
+            ctx.count('simrep d=%d' % d); ctx.count('simrep ' + ('deep' if c['deep'] else 'shallow'))
+            ctx.count('simrep subsampled pops', sum(1 for p in c['pops'] if p['nsub'] != p['nseq']))
+            ctx.case(signature=('s', json.dumps(c['pops']), c['af'], c['nsim'], c['seed']),
+                     sample={'pops': [(p['nseq'], p['nsub'], p['F'], p['covkind']) for p in c['pops']], 'af': c['af'], 'nsim': c['nsim'], 'simulated': r['out'][:9]})
+            bad = []
+            if any(x != x or x in (float('inf'), float('-inf')) for x in r['out']):
+                bad.append('returned non-finite values')
+            elif abs(sum(r['out']) - 1.0) > P_TOL or min(r['out']) < 0 or r['shape'] != [p['nsub'] + 1 for p in c['pops']]:
+                bad.append('returned array is not a probability vector over the bins 0..n_subsampling: sum-1 = %.3e, min = %.3e, shape %r' % (sum(r['out']) - 1, min(r['out']), r['shape']))
+            elif c['deep'] and all(p['nsub'] == p['nseq'] for p in c['pops']):
+                idx = 0
+                for p, a in zip(c['pops'], c['af']):
+                    idx = idx * (p['nsub'] + 1) + a
+                if abs(r['out'][idx] - 1.0) > P_TOL:
+                    bad.append('deep coverage without subsampling: the simulated array is not the point mass at the true allele counts: %r' % r['out'][:12])
+            bad += class_predicates(ctx, c, r['classes'], 'simulate_GATK_multisample_calling')
+            for w in bad:
+                ctx.violation('simulate_GATK_multisample_calling (pops=%s af=%r nsim=%d): %s' % ([(p['nseq'], p['nsub'], p['F'], p['covkind']) for p in c['pops']], c['af'], c['nsim'], w[:500]),
+                              data={'case': c, 'impl': {'out': r['out']}}); found_input = True
+            ctx.obligation('simulated-array predicates case %d' % c['id'], not bad, 'predicate', '; '.join(bad)[:300])
+            if obs and not any('non-finite' in w for w in bad):
+                sx.append((c['id'], sexpr(c, r)))
+        elif c['kind'] == 'subs':
+            ctx.case(signature=('u', c['N'], c['nsub'], c['seed'], len(c['rows'])), sample={'N': c['N'], 'nsub': c['nsub'], 'loci': len(c['rows']), 'first': r['out'][:4]})
+            k = c['nsub'] // 2
+            bad = []
+            if any(len(o) != k or any(g not in (0, 1, 2) for g in o) for o in r['out']) or len(r['out']) != sum(1 for row in c['rows'] if sum(1 for g in row if g != 99) >= k):
+                bad.append('the subsample does not consist of %d called genotypes per locus with enough calls' % k)
+            bad += class_predicates(ctx, c, r['classes'], 'subsample_genotypes_1D')
+            for w in bad:
+                ctx.violation('subsample_genotypes_1D (%d loci of %d individuals, n_subsampling=%d): %s' % (len(c['rows']), c['N'], c['nsub'], w[:500]),
+                              data={'case': c}); found_input = True
+            ctx.obligation('subsampling predicates case %d' % c['id'], not bad, 'predicate', '; '.join(bad)[:300])
+            if obs:
+                ux.append((c['id'], uexpr(c, r)))
+        else:
+            ctx.count('simdist d=%d' % len(c['pops'])); ctx.count('simdist ' + ('F>0' if any(p['F'] for p in c['pops']) else 'F=0'))
+            ctx.count('simdist rows', len(r['rows']))
+            ctx.case(signature=('d', json.dumps(c['pops']), c['seed']), sample={'pops': [(p['nseq'], p['nsub'], p['F']) for p in c['pops']], 'row': r['rows'][len(r['rows']) // 2]})
+            bad = simdist_predicates(ctx, c, r) + class_predicates(ctx, c, r['classes'], 'simulate_GATK_multisample_calling at deep coverage')[:3]
+            for w in bad:
+                ctx.violation('simulate_GATK_multisample_calling (pops=%s nsim=%d): %s' % ([(p['nseq'], p['nsub'], p['F']) for p in c['pops']], c['nsim'], w[:600]),
+                              data={'case': c}); found_input = True
+            ctx.obligation('deep simulated rows == projection rows (Hoeffding) case %d' % c['id'], not bad, 'predicate', '; '.join(bad)[:300])
+    sres = ctx.coq_cases('simrep', SIM_HEADER, sx, '(scheck %s)' % q(TOL_SIM), 'abs 1e-15 (counts / total)', shard=ctx.pick(2, 4), timeout=1500)
+    ures = ctx.coq_cases('subs', SIM_HEADER, ux, 'ucheck', 'exact', shard=1, timeout=1500, record_err=False)
+    cmap = {c['id']: c for c in allc}
+    nbad = 0
+    for cid, _ in sx + ux:
+        rr = sres.get(cid) if cmap[cid]['kind'] == 'simrep' else ures.get(cid)
+        ok = rr is not None and rr[0]
+        what = 'simulate_GATK_multisample_calling' if cmap[cid]['kind'] == 'simrep' else 'subsample_genotypes_1D'
+        ctx.obligation('replay of %s through the model, case %d' % (what, cid), ok, 'correspondence', '' if ok else 'model != impl %r' % (rr,))
+        if not ok:
+            nbad += 1
+            if nbad <= 3:
+                c = cmap[cid]
+                ctx.violation('%s replayed with the recorded draws disagrees with the model (or the draws violate its hypotheses): %r' % (what, rr),
+                              data={'case': c, 'impl': {k: v for k, v in byid[cid].items() if k in ('out', 'problems', 'probs')}},
+                              no_input=True, broken='replay of ' + what)
+    if src_problems and not found_input and only is None:
+        ctx.violation('source-text obligations of subsample_genotypes_1D fail: ' + '; '.join(src_problems), data={'problems': src_problems},
+                      no_input=True, broken='source text of subsample_genotypes_1D')
+
+
 HNAMES = {0: 'partitions_and_probabilities', 1: 'projection_matrix', 2: 'calling_error_matrix',
           3: 'probability_of_no_call_1D_GATK_multisample', 4: 'probability_enough_individuals_covered', 5: 'projection_inbreeding'}
 
@@ -244,14 +624,32 @@ def run(ctx):
     ctx.rule = ('helper cases = (nseq even 2..20 [quick <= 8], nsub even <= nseq, dyadic coverage distribution over depths 0..D<=80 of kind '
                 'low/mid/wide/nozero/two/deep, F = 0 or dyadic in (0,1)); corrected-model cases = 1-3 such populations (smaller sizes for 2-3), a '
                 'non-negative dyadic model array (corners masked by Spectrum), sim_threshold cycling through {0, 1e-2, 1}, nsim in {200,400,1000}; '
-                'distinct = distinct parameter tuples; non-trivial = every case (nseq >= 2)')
+                'distinct = distinct parameter tuples; non-trivial = every case (nseq >= 2); plus, on every run, deep-coverage sim_threshold=0 cases with '
+                'nsub < nseq (nsim 5000); simulation path: replayed simulate_GATK_multisample_calling calls (1-2 populations, nseq 4..8 [thorough 4..12], '
+                'mostly nsub < nseq, shallow and deep coverage, F = 0 and F > 0, nsim 60..300), subsample_genotypes_1D on constructed call matrices '
+                '(2-3 classes of identical rows, enough loci per class for a 1e-30 false-alarm bound), deep-coverage distribution cases (nsim 20000, '
+                'every allele count of 1 population / 14 allele-count pairs of 2 populations, F = 0 and F > 0)')
     ctx.assumptions += ['row 0 of a coverage-distribution array is arange(D+1) (what compute_cov_dist builds); the model indexes depths by position',
                         'float64 results are compared with the exact rationals at 1e-11 absolute (probabilities, F = 0), 1e-9 absolute (F > 0: gammaln differences at arguments ~ 1/F) and 1e-9 of the largest entry (corrected spectra)',
-                        'simulated regime: the arrays returned by simulate_GATK_multisample_calling in the run are handed to the model as the values of its oracle; '
-                        'the RNG is seeded only to make the run reproducible; entries whose no-call probability is within 1e-9 of sim_threshold are not compared',
+                        'simulated regime: in the corrected-model correspondence the arrays returned by simulate_GATK_multisample_calling in the run are the values of the '
+                        'model\'s `sim` argument; the function that produces them is replayed draw by draw through Model/LowPassSim.v in separate cases of every run; '
+                        'entries whose no-call probability is within 1e-9 of sim_threshold are not compared',
+                        'the numpy / scipy generators are seeded from VERIF_SEED through the harness: every statistical predicate is deterministic for a given seed',
+                        'statistical predicates (false alarm under the unchanged code, per comparison): independence of the per-locus choices -- all loci of a class '
+                        'choosing the same individuals: C^-(m-1) < 1e-30, some subset never chosen: C(1-1/C)^m < 1e-30 (C subsets, m loci; classes with a larger bound are '
+                        'not tested); uniformity of the chosen subsets, deep simulated row vs projection row, deep corrected model (sim_threshold=0) vs plain projection: '
+                        'Hoeffding with the number of simulated loci and a union bound over the entries, < 1e-12; the reads reveal every genotype at depth >= 60 except '
+                        'with probability < 2^-50 per locus (slack 3/n in the tolerance)',
                         'F -> 0 on the implementation is checked at F = 1e-9 with tolerance 1e-4: BetaBinomln cancels gammaln values of size 1e10 there']
-    ctx.trusted += ['Section variable `sim` (LowPass.v): simulate_GATK_multisample_calling returns SOME array; the theorems about the simulated regime assume '
-                    'it is non-negative with total 1 (checked on every simulated array of every run)']
+    ctx.trusted += ['`sim` (Section variable of LowPass.v) is NOT an unconstrained oracle any more: simulate_GATK_multisample_calling is modelled as a deterministic '
+                    'function of its random draws (Model/LowPassSim.v: simulate_reads, genotype calls, the two filters, subsample_genotypes_1D, histogramdd, normalisation), '
+                    'replayed exactly on recorded draws in every run; for EVERY draw the returned array is a probability vector (theorem, so the hypothesis of the '
+                    'total-sites theorem holds), at deep coverage it is the subsampling step alone (theorem), whose expectation under independent uniform per-locus '
+                    'choices is the projection_matrix row (theorems).  What remains a hypothesis is distributional: numpy.random.Generator.permuted(axis=1) shuffles every '
+                    'row independently and uniformly, scipy rv_discrete / binom draw from the stated distributions -- checked structurally (source text, recorded '
+                    'choices) and statistically (bounds in the assumptions), not proved',
+                    'the recording wrappers of harness/impl/c18_impl_sim.py (every draw is made by the real generator from the real state; reorderings are observed by '
+                    'a second execution on cell labels from the same bit-generator state, checked to consume the same state and to reproduce the result)']
     hc = gen_helper_cases(ctx)
     lc = gen_lowpass_cases(ctx)
     if ctx.replay:
@@ -260,6 +658,11 @@ def run(ctx):
         if c:
             hc = [c] if c['kind'] == 'helpers' else []
             lc = [c] if c['kind'] == 'lowpass' else []
+            if c['kind'] in ('simrep', 'subs', 'simdist'):
+                run_simulation_path(ctx, only=c)
+                return
+    if not ctx.replay or not ((json.load(open(ctx.replay)).get('input') or {}).get('case')):
+        run_simulation_path(ctx)
     for i, c in enumerate(hc + lc):
         c['id'] = i
     res = lib.run_impl('c18_impl.py', hc + lc, timeout=3000)
